@@ -239,8 +239,10 @@ class World:
                 kw["mask"] = np.isclose(pts[:, ax], coord)
             if spec.get("only_surface") is not None:
                 kw["only_surface"] = spec["only_surface"]
-            rb = getattr(fem, name)(self.mesh, **kw)
             kind = self.doc.get("field", {}).get("kind", "Field")
+            if kind in ("Axi", "PlaneStrain"):
+                kw["ensure_3d"] = True  # normals with three components for the 3x3 kinematics
+            rb = getattr(fem, name)(self.mesh, **kw)
             if kind == "Axi":
                 fb = fem.FieldContainer([fem.FieldAxisymmetric(rb, dim=2)])
             elif kind == "PlaneStrain":
@@ -276,13 +278,13 @@ class World:
                 self._boundary_field(it["face"]), cauchy_stress=None if cs is None else np.asarray(cs, dtype=float)
             )
         if t == "SolidBodyForce":
-            return fem.SolidBodyForce(f, values=np.asarray(it["values"], dtype=float), scale=it.get("scale", 1.0))
+            return fem.SolidBodyForce(f, values=self._load_vector(it["values"]), scale=it.get("scale", 1.0))
         if t == "SolidBodyGravity":
             import warnings
 
             with warnings.catch_warnings():
                 warnings.simplefilter("ignore")
-                return fem.SolidBodyGravity(f, gravity=np.asarray(it["gravity"], dtype=float), density=it.get("density", 1.0))
+                return fem.SolidBodyGravity(f, gravity=self._load_vector(it["gravity"]), density=it.get("density", 1.0))
         if t == "PointLoad":
             return fem.PointLoad(f, self._points(it["points"]), values=np.asarray(it["values"], dtype=float))
         if t in ("MultiPointConstraint", "MultiPointContact"):
@@ -333,6 +335,14 @@ class World:
         )
         holder["item"] = item
         return item
+
+    def _load_vector(self, v):
+        """Body-load vector in the convention of the field kind (an axisymmetric value space has
+        three components: axial, radial, hoop = 0)."""
+        v = np.asarray(v, dtype=float)
+        if self.doc.get("field", {}).get("kind") == "Axi" and v.size == 2:
+            v = np.append(v, 0.0)
+        return v
 
     def multiplier_of(self, item):
         k = [i for i, it in enumerate(self.items) if it is item][0]
@@ -448,7 +458,11 @@ class World:
             return float(r["values"][i]) * (X @ H.T)
         v = r["values"][i]
         if isinstance(v, list):
-            return np.asarray(v, dtype=float)
+            v = np.asarray(v, dtype=float)
+            k = int(tgt[5:]) if tgt.startswith("item:") else None
+            if k is not None and self.doc["items"][k]["type"] in ("SolidBodyForce", "SolidBodyGravity"):
+                v = self._load_vector(v)
+            return v
         return v
 
     def _build_step(self, s):
